@@ -14,7 +14,8 @@ THEOREMS = {
     "C03": ["C03.step", "C03.upgrade_run", "C03.downgrade_run", "C03.run_up", "C03.run_down", "C03.init",
             "C03.all_applied_rows", "C03.none_applied_rows", "C03.applied_iff_requires",
             "Lemmas.Rev.step_up", "Lemmas.Rev.step_down", "Lemmas.Rev.mem_unmergeTo", "Lemmas.Rev.mem_mergeFrom"],
-    "C05": [],
+    "C05": ["C05.single", "C05.base", "C05.stamp_fold", "C05.sharesLineage_iff",
+            "Lemmas.Rev.fold_ok", "Lemmas.Rev.loaded_of_load"],
     "C15": ["C15.cyclic_rejected", "C15.detect_rejects_cycle", "C15.acyclic_accepted", "C15.acyclic_loads",
             "C15.acyclic_no_cycle", "C15.heads_bases", "C15.closure_total",
             "Lemmas.Rev.peel_of_ranked", "Lemmas.Rev.peel_keeps_cycle", "Lemmas.Rev.ranked_of_peel",
@@ -23,6 +24,9 @@ THEOREMS = {
             "C16.symbolic_heads", "C16.symbolic_base", "Lemmas.Rev.revisionForIdent_sound"],
 }
 PARTIAL = {
+    "C05": {
+        "several destinations / 'heads'": "the loop over destinations (stampLoop, repaired by the F4 fix commit) and the resolution of the target strings are compared with the real code and judged by the Lean oracle Spec.Rev.stampOk on the implementation's rows; the theorems C05.single / C05.base are per destination",
+    },
     "C16": {
         "C16.prefix_unique_partial": "full prefix rule needs every revision id to have >=4 characters (known finding F13: shorter ids are invisible to the partial lookup); C16.prefix_unique_counterexample is the kernel-checked witness",
         "relative and branch-qualified forms": "id+/-N, +/-N, label@... are compared with the real code and judged by the Lean oracles Spec.Rev.stepsDown / downLineage / refTargets on the implementation's answers; no unbounded theorem about _walk yet",
